@@ -70,24 +70,42 @@ pub fn to_vec<T: Elt, const N: usize>(k: &[Option<i32>; N]) -> Vec<T> {
     v
 }
 
-/// insertion-sorted valid keys (ascending) and their number
-pub fn sorted_valid<const N: usize>(k: &[Option<i32>; N]) -> ([i32; N], usize) {
+/// The valid keys in sorted order (ascending, or descending for `desc`) and their number, by rank
+/// placement: slot p receives the valid key that has exactly p valid keys before it (ties broken by
+/// position). Plain loops with literal indices only — an insertion sort would write at symbolic
+/// indices, which is what made the first version of these harnesses 5x slower.
+pub fn sorted_valid_dir<const N: usize>(k: &[Option<i32>; N], desc: bool) -> ([i32; N], usize) {
     let mut s = [0i32; N];
     let mut n = 0;
     let mut i = 0;
     while i < N {
-        if let Some(v) = k[i] {
-            let mut j = n;
-            while j > 0 && s[j - 1] > v {
-                s[j] = s[j - 1];
-                j -= 1;
-            }
-            s[j] = v;
+        if let Some(x) = k[i] {
             n += 1;
+            let mut before = 0usize;
+            let mut j = 0;
+            while j < N {
+                if let Some(y) = k[j] {
+                    if (!desc && y < x) || (desc && y > x) || (y == x && j < i) {
+                        before += 1;
+                    }
+                }
+                j += 1;
+            }
+            let mut p = 0;
+            while p < N {
+                if p == before {
+                    s[p] = x;
+                }
+                p += 1;
+            }
         }
         i += 1;
     }
     (s, n)
+}
+
+pub fn sorted_valid<const N: usize>(k: &[Option<i32>; N]) -> ([i32; N], usize) {
+    sorted_valid_dir(k, false)
 }
 
 // ---------------------------------------------------------------------------------------------
@@ -229,7 +247,16 @@ where
     if qi > 3 {
         fl.upper_half = true;
     }
-    let r = v.vquantile(QGRID[qi].2, method_of(m)).unwrap();
+    // no `.unwrap()`: its failure path formats and drops a `TError`, whose drop glue (an `io::Error`
+    // variant owning a `Box<dyn Error>`) is a virtual call over the whole crate graph for CBMC
+    let r = match v.vquantile(QGRID[qi].2, method_of(m)) {
+        Ok(x) => x,
+        Err(e) => {
+            std::mem::forget(e);
+            assert!(false, "q in [0, 1] is accepted");
+            return;
+        },
+    };
     judge_quantile(&s, n, qi, m, r, fl);
 }
 
@@ -412,71 +439,108 @@ impl PartFlags {
     }
 }
 
-/// expected j-th extreme valid key (ascending for !rev, descending for rev)
-fn want_at<const N: usize>(s: &[i32; N], n: usize, rev: bool, j: usize) -> i32 {
-    if rev { s[n - 1 - j] } else { s[j] }
+/// Shared judgement of the produced entries. `got[j]` (j < cnt) is the key of the j-th entry (None =
+/// pad), `want[0..n]` the valid keys in the requested direction. `k` is a literal at the call site.
+fn judge_entries<const N: usize, const M: usize>(
+    got: &[Option<i32>; M],
+    cnt: usize,
+    want: &[i32; N],
+    n: usize,
+    k: usize,
+    sort: bool,
+    arg: bool,
+) {
+    let take = umin(k + 1, n);
+    // everything is stated on the entries actually produced (at most k+1 were read)
+    let mut nn = 0usize;
+    let mut j = 0;
+    while j < k + 1 {
+        if j < cnt && got[j].is_some() {
+            nn += 1;
+        }
+        j += 1;
+    }
+    if arg {
+        assert!(nn == take, "non-pad indices number min(k+1, valid count): pads only when fewer exist");
+    } else {
+        assert!(nn == take, "non-pad entries number min(k+1, valid count): pads only when fewer exist");
+    }
+    // multiset equality by counting every wanted value on both sides
+    let mut j = 0;
+    while j < k + 1 && j < N {
+        if j < take {
+            let w = want[j];
+            let (mut cg, mut cw) = (0usize, 0usize);
+            let mut i = 0;
+            while i < k + 1 {
+                if i < cnt && got[i] == Some(w) {
+                    cg += 1;
+                }
+                if i < N && i < take && want[i] == w {
+                    cw += 1;
+                }
+                i += 1;
+            }
+            if arg {
+                assert!(cg == cw, "indexed elements are the k+1 extreme valid elements (multiset)");
+            } else {
+                assert!(cg == cw, "non-pad entries are the k+1 extreme valid elements (multiset)");
+            }
+        }
+        j += 1;
+    }
+    if sort {
+        let mut j = 0;
+        while j < k + 1 {
+            if j < cnt {
+                if j < take && j < N {
+                    if arg {
+                        assert!(got[j] == Some(want[j]), "sorted arg-partition lists the extremes in order");
+                    } else {
+                        assert!(got[j] == Some(want[j]), "sorted partition lists the extremes in order");
+                    }
+                } else if arg {
+                    assert!(got[j].is_none(), "sorted arg-partition has its pads at the end");
+                } else {
+                    assert!(got[j].is_none(), "sorted partition has its pads at the end");
+                }
+            }
+            j += 1;
+        }
+    }
 }
 
-/// `M` must be N + 3 (room for k+1 <= N+2 entries and one excess entry).
+/// `M` must be N + 3. `k`, `sort`, `rev` are literals at every call site: a symbolic flag makes the
+/// boxed iterator's dynamic type symbolic, and every `next()` then expands into all five iterator
+/// pipelines (measured: 150-400 s instead of 25 s).
 pub fn partition_case<T: Elt, const N: usize, const M: usize>(keys: &[Option<i32>; N], k: usize, sort: bool, rev: bool) -> PartFlags
 where
     T::Inner: PartialOrd,
 {
-    let (s, n) = sorted_valid(keys);
+    let (want, n) = sorted_valid_dir(keys, rev);
     let v: Vec<T> = to_vec(keys);
     let mut got: [Option<i32>; M] = [None; M];
     let mut cnt = 0usize;
     {
         let mut it = v.vpartition(k, sort, rev);
+        // exactly k+2 reads: k+1 entries and the end marker
         let mut c = 0;
-        while c < M {
+        while c < k + 2 {
             match it.next() {
                 Some(x) => {
-                    got[cnt] = x.key();
-                    cnt += 1;
+                    got[c] = x.key();
+                    cnt = c + 1;
                 },
                 None => break,
             }
             c += 1;
         }
+        // not dropped: dropping a `Box<dyn TrustedLen>` is a virtual call over every candidate pipeline
+        std::mem::forget(it);
     }
-    let take = umin(k + 1, n);
     let fl = PartFlags { padded: n < k + 1, selected: n > k + 1, null_in_input: n < N, k_beyond_len: k + 1 > N };
     assert!(cnt == k + 1, "partition yields exactly k+1 entries");
-    // everything below is stated on the entries actually produced
-    let mut nn = 0usize;
-    let mut vals = [0i32; M];
-    let mut j = 0;
-    while j < cnt {
-        if let Some(x) = got[j] {
-            // insertion into vals (ascending for !rev, descending for rev)
-            let mut p = nn;
-            while p > 0 && ((!rev && vals[p - 1] > x) || (rev && vals[p - 1] < x)) {
-                vals[p] = vals[p - 1];
-                p -= 1;
-            }
-            vals[p] = x;
-            nn += 1;
-        }
-        j += 1;
-    }
-    assert!(nn == take, "non-pad entries number min(k+1, valid count): pads only when fewer exist");
-    let mut j = 0;
-    while j < nn && j < take {
-        assert!(vals[j] == want_at(&s, n, rev, j), "non-pad entries are the k+1 extreme valid elements (multiset)");
-        j += 1;
-    }
-    if sort {
-        let mut j = 0;
-        while j < cnt {
-            if j < take {
-                assert!(got[j] == Some(want_at(&s, n, rev, j)), "sorted partition lists the extremes in order");
-            } else {
-                assert!(got[j].is_none(), "sorted partition has its pads at the end");
-            }
-            j += 1;
-        }
-    }
+    judge_entries(&got, cnt, &want, n, k, sort, false);
     fl
 }
 
@@ -484,74 +548,51 @@ pub fn arg_partition_case<T: Elt, const N: usize, const M: usize>(keys: &[Option
 where
     T::Inner: Number,
 {
-    let (s, n) = sorted_valid(keys);
+    let (want, n) = sorted_valid_dir(keys, rev);
     let v: Vec<T> = to_vec(keys);
-    let mut got: [i32; M] = [0; M];
+    let mut ixs: [i32; M] = [-1; M];
     let mut cnt = 0usize;
     {
         let mut it = v.varg_partition(k, sort, rev);
         let mut c = 0;
-        while c < M {
+        while c < k + 2 {
             match it.next() {
                 Some(x) => {
-                    got[cnt] = x;
-                    cnt += 1;
+                    ixs[c] = x;
+                    cnt = c + 1;
                 },
                 None => break,
             }
             c += 1;
         }
+        // not dropped: dropping a `Box<dyn TrustedLen>` is a virtual call over every candidate pipeline
+        std::mem::forget(it);
     }
-    let take = umin(k + 1, n);
     let fl = PartFlags { padded: n < k + 1, selected: n > k + 1, null_in_input: n < N, k_beyond_len: k + 1 > N };
     assert!(cnt == k + 1, "arg-partition yields exactly k+1 entries");
-    let mut nn = 0usize;
-    let mut vals = [0i32; M];
-    let mut seen = [false; N];
+    // indices -> keys; pads are -1
+    let mut got: [Option<i32>; M] = [None; M];
     let mut j = 0;
-    while j < cnt {
-        let ix = got[j];
-        if ix != -1 {
-            assert!(ix >= 0 && (ix as usize) < N, "index entries are in range (pads are -1)");
-            let ix = ix as usize;
-            assert!(!seen[ix], "index entries are distinct");
-            seen[ix] = true;
-            match keys[ix] {
-                None => assert!(false, "index entries never point to a null element"),
-                Some(x) => {
-                    let mut p = nn;
-                    while p > 0 && ((!rev && vals[p - 1] > x) || (rev && vals[p - 1] < x)) {
-                        vals[p] = vals[p - 1];
-                        p -= 1;
-                    }
-                    vals[p] = x;
-                    nn += 1;
-                },
+    while j < k + 1 {
+        if j < cnt {
+            let ix = ixs[j];
+            if ix != -1 {
+                assert!(ix >= 0 && (ix as usize) < N, "index entries are in range (pads are -1)");
+                if ix >= 0 && (ix as usize) < N {
+                    let key = keys[ix as usize];
+                    assert!(key.is_some(), "index entries never point to a null element");
+                    got[j] = key;
+                }
+                let mut i = 0;
+                while i < j {
+                    assert!(ixs[i] != ix, "index entries are distinct");
+                    i += 1;
+                }
             }
         }
         j += 1;
     }
-    assert!(nn == take, "non-pad indices number min(k+1, valid count): pads only when fewer exist");
-    let mut j = 0;
-    while j < nn && j < take {
-        assert!(vals[j] == want_at(&s, n, rev, j), "indexed elements are the k+1 extreme valid elements (multiset)");
-        j += 1;
-    }
-    if sort {
-        let mut j = 0;
-        while j < cnt {
-            if j < take {
-                let ix = got[j];
-                assert!(
-                    ix >= 0 && (ix as usize) < N && keys[ix as usize] == Some(want_at(&s, n, rev, j)),
-                    "sorted arg-partition lists the extremes in order"
-                );
-            } else {
-                assert!(got[j] == -1, "sorted arg-partition has its pads at the end");
-            }
-            j += 1;
-        }
-    }
+    judge_entries(&got, cnt, &want, n, k, sort, true);
     fl
 }
 
